@@ -129,9 +129,9 @@ def templates(seed, tier):
     if tier == "quick":
         rnd.shuffle(combos); combos = combos[:30]
     for (cn, ctx), (hn, held) in combos:
-        for K in (1,):
+        for K in ((1,) if tier == "quick" else (1, 2, 3)):
             body = ctx.replace("X", held.replace("K", str(K))).replace("R", "f(n - 1)")
-            out.append({"name": "ctx_%s_%s" % (cn, hn), "role": "value-held-across-recursive-call(%s in %s)" % (hn, cn),
+            out.append({"name": "ctx_%s_%s_%d" % (cn, hn, K), "role": "value-held-across-recursive-call(%s in %s)" % (hn, cn),
                         "text": PROGRAM.replace("BODY", body), "dom": {"a": (0, 3)}})
     for name, text, dom in CLOSURES:
         out.append({"name": name, "role": name, "text": text, "dom": dom})
